@@ -106,12 +106,17 @@ namespace
 struct bad_op
 {
 };
-struct E1 // the exception type try_call is asked to catch
+struct E1 // the exception type try_call is asked to catch (polymorphic, like std::exception)
 {
   int d;
+  explicit E1(int const x) : d{x} {}
+  E1(E1 const &) = default;
+  E1 &operator=(E1 const &) = default;
+  virtual ~E1() = default;
 };
 struct E1d : E1 // derived from the caught type: caught too (catch by reference to the base)
 {
+  using E1::E1;
 };
 struct E2 // any other exception type
 {
@@ -746,6 +751,67 @@ std::string dyn_cast_list(std::string const &l, Base &b)
   throw bad_op{};
 }
 
+// the implicitly defined special members of the three classes and std::swap, including an object with itself
+template <typename T>
+std::string asg_op(std::string const &k, T const &a, T const &b)
+{
+  if (k == "copy")
+  {
+    T x{a};
+    T const y{b};
+    x = y;
+    return show(x) + " " + show(y);
+  }
+  if (k == "move")
+  {
+    T x{a};
+    T y{b};
+    x = std::move(y);
+    return show(x);
+  }
+  if (k == "cctor")
+  {
+    T const y{b};
+    T const x{y}; // NOLINT(performance-unnecessary-copy-initialization)
+    return show(x) + " " + show(y);
+  }
+  if (k == "mctor")
+  {
+    T y{b};
+    T const x{std::move(y)};
+    return show(x);
+  }
+  if (k == "swap")
+  {
+    T x{a};
+    T y{b};
+    std::swap(x, y);
+    return show(x) + " " + show(y);
+  }
+  if (k == "self")
+  {
+    T x{a};
+    T const &r{x};
+    x = r;
+    return show(x);
+  }
+  if (k == "selfmove")
+  {
+    T x{a};
+    T &r{x};
+    x = std::move(r);
+    return show(x);
+  }
+  if (k == "selfswap")
+  {
+    T x{a};
+    T &r{x};
+    std::swap(x, r);
+    return show(x);
+  }
+  throw bad_op{};
+}
+
 using err = fcppt::either::error<E>;
 
 std::string op2(std::vector<std::string> const &t)
@@ -1046,6 +1112,21 @@ std::string op2(std::vector<std::string> const &t)
   }
 
 
+  if (o == "o.asg" && n == 4)
+    return asg_op(t[1], tok<oA>(t[2]), tok<oA>(t[3]));
+  if (o == "e.asg" && n == 4)
+    return asg_op(t[1], tok<eA>(t[2]), tok<eA>(t[3]));
+  if (o == "v.asg" && n == 4)
+    return asg_op(t[1], tok<var3>(t[2]), tok<var3>(t[3]));
+  if (o == "o.assign.own" && n == 2)
+  {
+    // the argument of assign is (an rvalue reference to) the optional's own content
+    oA x{tok<oA>(t[1])};
+    if (!x.has_value())
+      throw bad_op{};
+    A &r{fo::assign(x, std::move(x.get_unsafe()))};
+    return show(x) + " " + show(r) + (&r == &x.get_unsafe() ? " in" : " other");
+  }
   // ---------------- constructors (object_impl.hpp): an lvalue argument is copied, not moved from
   if (o == "o.ctor" && n == 3)
     return cat1(t[1], tok<A>(t[2]), [&](auto &&x) -> oA { return oA{FWD(x)}; });
@@ -1416,7 +1497,7 @@ std::string op(std::vector<std::string> const &t)
           if (r[0] == 'X')
             throw E1{r[1] - '0'};
           if (r[0] == 'Z')
-            throw E1d{{r[1] - '0'}};
+            throw E1d{r[1] - '0'};
           return A{r[1] - '0'};
         },
         [&f](E1 const &e) -> E
